@@ -206,7 +206,7 @@ impl<'a, H: Hist> Dfs<'a, H> {
             match self.h.run(hist, st) {
                 Verdict::Ok { hash, nontrivial } => {
                     st.state(hash, nontrivial);
-                    if st.samples.len() < 6 && (st.evaluations % 997 == 1) {
+                    if st.samples.len() < 6 && (st.transitions % 97 == 1) {
                         let s: Vec<String> = hist.iter().map(|o| self.h.show(o)).collect();
                         st.sample(json!(s));
                     }
